@@ -3,6 +3,7 @@
 breaks (and optionally others), report whether a VIOLATION was raised, and restore /repo.  Results go to /verif/seeded/RESULTS.json."""
 import json, os, subprocess, sys, time
 VERIF = os.path.dirname(os.path.dirname(os.path.abspath(__file__)))
+os.environ["VERIF_EVIDENCE_DIR"] = os.path.join(VERIF, "work", "evidence-seeded")
 def sh(cmd, **kw): return subprocess.run(cmd, shell=True, stdout=subprocess.PIPE, stderr=subprocess.STDOUT, text=True, **kw)
 def main():
     names = sys.argv[1:] or sorted(d for d in os.listdir(os.path.join(VERIF, "seeded")) if os.path.isdir(os.path.join(VERIF, "seeded", d)))
